@@ -232,6 +232,14 @@ func (c *ExprCtx) allocName(a *ssa.Alloc) string {
 func (c *ExprCtx) place(addr ssa.Value) string {
 	switch x := addr.(type) {
 	case *ssa.FieldAddr:
+		// a field reached through an embedded struct is rendered as the promoted field (x.f, not
+		// x.E.f): grouping fields into an embedded struct, or flattening one, changes nothing
+		if inner, ok := x.X.(*ssa.FieldAddr); ok && embeddedStructField(inner) {
+			b := c.place(inner)
+			if i := strings.LastIndexByte(b, '.'); i >= 0 {
+				return b[:i] + "." + fieldAddrName(x)
+			}
+		}
 		base := c.Expr(x.X)
 		if al, ok := x.X.(*ssa.Alloc); ok && al.Parent() != nil {
 			// a struct variable assigned exactly once as a whole (e.g. a call result kept in a local)
@@ -286,6 +294,42 @@ func (c *ExprCtx) load(addr ssa.Value) string {
 		}
 	}
 	return c.place(addr)
+}
+
+// embeddedStructField: the selected field is an embedded struct (held by value).
+func embeddedStructField(fa *ssa.FieldAddr) bool {
+	st, ok := deref(fa.X.Type()).Underlying().(*types.Struct)
+	if !ok {
+		return false
+	}
+	f := st.Field(fa.Field)
+	if !f.Embedded() {
+		return false
+	}
+	_, isStruct := f.Type().Underlying().(*types.Struct)
+	return isStruct
+}
+
+// resolveObj looks through loads of single-store fields of struct types that did not exist on
+// the reviewed tree (locals a refactoring moved into a struct): the value stored there. Used
+// where a rule identifies an object by its SSA value.
+func resolveObj(v ssa.Value) ssa.Value {
+	for d := 0; d < 6; d++ {
+		u, ok := v.(*ssa.UnOp)
+		if !ok || u.Op != token.MUL {
+			return v
+		}
+		fa, ok := u.X.(*ssa.FieldAddr)
+		if !ok {
+			return v
+		}
+		nv := newTypeFieldValue(fa)
+		if nv == nil {
+			return v
+		}
+		v = nv
+	}
+	return v
 }
 
 // theWorld: the program under analysis (set by the driver; used by value resolution that needs
@@ -742,6 +786,11 @@ func intLit(lin Lin, op token.Token) (Lit, bool) {
 // CondLits returns the literals known on the true edge of cond (and via Not() on the false edge).
 // ok=false for opaque conditions.
 func (c *ExprCtx) CondLit(cond ssa.Value) (Lit, bool) {
+	if c.Alias != nil {
+		if a, ok := c.Alias[cond]; ok {
+			return Lit{Kind: "bool", A: a}, true
+		}
+	}
 	switch x := cond.(type) {
 	case *ssa.UnOp:
 		if x.Op == token.NOT {
